@@ -967,7 +967,8 @@ func c09Settle(r *sysRun, st *c09State, busy bool, final bool) {
 			st.refreshList(r)
 			burstQueryChanged = true
 			queryChanges++
-			if burstFed {
+			if burstFed || st.cursorSlack > 0 {
+				// (a cursor that may have been dragged, then lists that may or may not have been seen)
 				st.cursorLoose = true
 			}
 		}
